@@ -1,0 +1,28 @@
+//go:build verif
+
+package tuning
+
+// Comment-only contract file for the deductive verifier in /verif (see /verif/DESIGN.md).
+// It contains no code; with the build tag off the file is not even compiled.
+//
+// Property C20: batches partition the index range and chunks partition each batch.  The iterator
+// bodies are the closures Batches$1 / Chunks$1; yield is called through a function value under the
+// callback contract: the range handed over starts at the loop cursor, is non-empty, stays inside the
+// total and ends either one full step later or at the end.  Successive cursors are exactly one step
+// apart, so consecutive ranges tile [0, numEntries) resp. the batch, without gap or overlap.
+//
+//@ func Batches$1
+//@   props C20
+//@   requires 0 <= numEntries && numEntries < 1<<61
+//@   callback-requires 0 <= start && start < end && end <= numEntries && (end == start + 100000 || end == numEntries)
+//@   nopanic
+//@   loop 1: invariant 0 <= start && start < numEntries + 100000
+//@   loop 1: modifies nothing
+//@
+//@ func Chunks$1
+//@   props C20
+//@   requires 0 <= batch.Start && batch.Start <= batch.End && batch.End < 1<<61
+//@   callback-requires batch.Start <= start && start < end && end <= batch.End && (end == start + 6250 || end == batch.End)
+//@   nopanic
+//@   loop 1: invariant batch.Start <= start && start < batch.End + 6250
+//@   loop 1: modifies nothing
